@@ -358,6 +358,7 @@ RawVerdict(e) ==
   ELSE IF Has(e, "det") /\ ~e.det THEN "reject:nondeterministic"
   ELSE IF Has(e, "seqeq") /\ ~e.seqeq THEN "reject:concurrent-result-differs"
   ELSE IF Has(e, "inmod") /\ e.inmod THEN "reject:input-modified"
+  ELSE IF Has(e, "bok") /\ ~e.bok THEN "reject:behaviour-mismatch"        \* a replayed TLC behaviour: register differs from the expected value
   ELSE IF Has(e, "m") /\ e.m > 5 /\ e.op # "SetMode" THEN "ok"          \* a mode outside the six named ones: totality only
   ELSE CASE e.op = "SetMode" -> "ok"
          [] e.op = "Payload" -> PayloadVerdict(e)
